@@ -288,6 +288,49 @@ def check_close_while_receiving(rseed, policy):
                 pass
 
 
+def check_poll_never_waits_big():
+    """Exactly 1024 (and 2048, 1000) bytes of complete messages are queued and the peer
+    stays connected and silent: poll() / iter_pending() must hand them out and return."""
+    import threading
+    from mido.sockets import SocketPort
+    out = []
+    for nbytes in (1024, 2048, 1000):
+        a, b = socket.socketpair()
+        port = SocketPort('peer', 1, conn=a)
+        try:
+            b.sendall(bytes([0xc0, 5] * (nbytes // 2)))
+            box = {}
+
+            def work():
+                try:
+                    box['n'] = len(list(port.iter_pending()))
+                except Exception as e:
+                    box['exc'] = e
+            th = threading.Thread(target=work, daemon=True)
+            th.start()
+            th.join(5.0)
+            if th.is_alive():
+                out.append(('poll-blocks/%d-bytes-queued' % nbytes, {'kind': 'bigpoll'},
+                            'iter_pending() did not return within 5 s with %d bytes queued and a silent peer' % nbytes))
+                b.sendall(b'\xf8')      # let the stuck reader go
+                th.join(2.0)
+            elif 'exc' in box or box.get('n') != nbytes // 2:
+                out.append(('wrong-messages/big', {'kind': 'bigpoll'},
+                            '%d bytes queued: iter_pending gave %r' % (nbytes, box)))
+        finally:
+            for s_ in (a, b):
+                try:
+                    s_.close()
+                except Exception:
+                    pass
+            try:
+                port._rfile.close()
+                port._wfile.close()
+            except Exception:
+                pass
+    return out
+
+
 def check_server(n_per_client=3):
     """PortServer on the loopback interface, two clients."""
     import mido
@@ -373,6 +416,29 @@ def check_server(n_per_client=3):
             out.append(('server-loses-messages-of-disconnected-client', {'kind': 'server'},
                         'a client sent %d messages and disconnected; the server handed out %r' % (
                             len(late), got3)))
+        # closing the server is seen as a disconnect by EVERY client still connected
+        raws = []
+        for _ in range(3):                # one at a time: the listen backlog is 1
+            before = len(server.ports)
+            raws.append(socket.create_connection(('127.0.0.1', portno), timeout=5))
+            for _ in range(200):
+                server.poll()             # accepts the pending connection
+                if len(server.ports) > before:
+                    break
+                time.sleep(0.005)
+        server.close()
+        for k, rs in enumerate(raws):
+            rs.settimeout(1.0)
+            try:
+                if rs.recv(8) != b'':
+                    out.append(('server-close/data', {'kind': 'server'}, 'client %d read data after the server closed' % k))
+            except socket.timeout:
+                out.append(('server-close-not-seen-by-client', {'kind': 'server'},
+                            'client %d of %d sees no EOF after PortServer.close()' % (k, len(raws))))
+            except OSError:
+                pass                      # a reset is a disconnect too
+            finally:
+                rs.close()
         return out, None
     finally:
         mp.sleep = saved
@@ -404,6 +470,9 @@ def replay(case):
         return r and '%s: %s' % r
     if k == 'close_seen':
         v = [x for x in check_close_seen_by_peer() if x[1].get('pre_send') == case['pre_send']]
+        return v and v[0][2]
+    if k == 'bigpoll':
+        v = check_poll_never_waits_big()
         return v and v[0][2]
     if k == 'close_recv':
         r = check_close_while_receiving(case['rseed'], case['policy'])
@@ -458,6 +527,8 @@ CHECK_DEADLOCK FALSE
         ctx.replayed += 1
         if r:
             ctx.violation('socket/' + r[0], {'kind': 'close_recv', 'rseed': rseed, 'policy': policy}, r[1])
+    for key, case, msg in check_poll_never_waits_big():
+        ctx.violation('socket/' + key, case, msg)
     v, skipped = check_server()
     for key, case, msg in v:
         ctx.violation('socket/' + key, case, msg)
